@@ -1,4 +1,5 @@
 import BoltonsVerif.C04.Proofs
+import BoltonsVerif.C04.Closed
 import BoltonsVerif.Generated.C04_Consts
 /-
 C04 — property theorems: a trace accepted by `SafeTrace` is crash safe at every prefix under both
@@ -108,6 +109,47 @@ theorem raising_exit (cfg : Cfg) (fs : FS) (body : Body) (hwf : fs.WF) (hh : fs.
   · obtain ⟨h1, _, _, x, h4, _⟩ := hi
     simp only [FS.readDest, h1, inode?_old fs fs' x hwf h4]
 
+/-- **A body that closes the part file itself** (`fo.close()`, `with fo:`, a wrapper that closes the
+    underlying stream), after any writes, raising afterwards or not: for every configuration and initial
+    state the transliterated `__exit__` (`flush` raises `ValueError`, the cleanup removes the part file)
+    emits an accepted trace without a publishing event; it can be executed, leaves the destination exactly
+    as it was, and (with `rm_part_on_exc`) no part file.  The save is refused - what the body wrote was
+    never synced by the saver, so it must not be published. -/
+theorem closed_body_refused (cfg : Cfg) (fs : FS) (writes : List (Bytes × Nat)) (hwf : fs.WF) (hh : fs.hist = [])
+    (hp : fs.dir.part = none ∨ cfg.overwritePart = true) :
+    SafeTrace (saverTraceClosed cfg fs writes) = true ∧ publishes (saverTraceClosed cfg fs writes) = false ∧
+    ∃ fs', exec fs (saverTraceClosed cfg fs writes) = some fs' ∧ fs'.readDest = fs.readDest ∧
+      (cfg.rmPartOnExc = true → fs'.dir.part = none) := by
+  refine ⟨closed_safe cfg fs writes, closed_never_publishes cfg fs writes, ?_⟩
+  obtain ⟨us, hrun⟩ := closedRest_run cfg fs writes
+  obtain ⟨fs', hx, hi⟩ := open_then_exec cfg fs _ _ hh hp hrun (closedRest_auto cfg fs writes)
+  refine ⟨fs', hx, ?_⟩
+  simp only [Inv, closedPhase] at hi
+  cases hm : cfg.rmPartOnExc <;> simp only [hm] at hi
+  · obtain ⟨h1, _, _, x, h4, _⟩ := hi
+    exact ⟨by simp only [FS.readDest, h1, inode?_old fs fs' x hwf h4], by simp⟩
+  · obtain ⟨h1, _, h3, x, h4, _⟩ := hi
+    exact ⟨by simp only [FS.readDest, h1, inode?_old fs fs' x hwf h4], fun _ => h3⟩
+
+/-- non-vacuity: a present destination, a stale part file with `overwrite_part`, two writes, then the body closes -/
+example : let fs0 : FS := ⟨[⟨[7], [], 0o644⟩, ⟨[9, 9], [], 0o640⟩], ⟨some 0, some 1⟩, [], none, 0o022⟩
+    let cfg : Cfg := { overwritePart := true }
+    fs0.WF ∧ fs0.hist = [] ∧ (exec fs0 (saverTraceClosed cfg fs0 [([1, 2], 0), ([3], 1)])).map FS.readDest = some (some [7]) := by decide
+
+/-- ... and at every point of such a save a process death or a power loss leaves the old destination -/
+theorem closed_body_crash_safe (cfg : Cfg) (fs0 : FS) (writes : List (Bytes × Nat)) (hwf : fs0.WF) (hh : fs0.hist = [])
+    (hsy : DestSynced fs0) :
+    ∀ p q fs, saverTraceClosed cfg fs0 writes = p ++ q → exec fs0 p = some fs →
+      fs.destAfterProcCrash = fs0.readDest ∧ ∀ r, fs.PowerDest r → r = fs0.readDest := by
+  intro p q fs ht hx
+  have hpub : publishes p = false := by
+    have := closed_never_publishes cfg fs0 writes
+    rw [ht, publishes_append] at this
+    cases h : publishes p
+    · rfl
+    · simp [h] at this
+  exact (safeTrace_crash_safe fs0 _ hwf hh hsy (closed_safe cfg fs0 writes) p q fs ht hx).2.2.1 hpub
+
 /-- `SafeTrace` is prefix closed: what has been accepted so far stays accepted -/
 theorem safeTrace_prefix (p q : List Ev) (h : SafeTrace (p ++ q) = true) : SafeTrace p = true := by
   unfold SafeTrace at *
@@ -154,5 +196,20 @@ theorem no_excl_breaks :
 theorem write_after_publish_breaks :
     let t := [Ev.openPart true true 0o644, .write [1] 0, .flush, .fsync, .renamePartDest, .write [2] 1]
     SafeTrace t = false ∧ allWrites t = [1, 2] ∧ (exec fsOld (t.take 5)).map FS.destAfterProcCrash = some (some [1]) := by decide
+
+/-- publishing what a body wrote and CLOSED itself (no fsync of it is possible any more): after the
+    rename a power loss can leave an EMPTY destination -/
+theorem publish_after_body_close_breaks :
+    let t := [Ev.openPart true true 0o644, .noop, .write [1, 2] 0, .close, .renamePartDest]
+    SafeTrace t = false ∧ ((exec fsOld t).map fun fs => fs.powerDests.contains (some [])) = some true := by decide
+
+/-- a fallback for a failed `link` (the `noop`) that claims the destination name by an exclusive create
+    and then renames the part file over the claim: a process death between the two leaves an EMPTY
+    destination where there was none -/
+theorem claim_then_rename_breaks :
+    let fs0 : FS := ⟨[], ⟨none, none⟩, [], none, 0o022⟩
+    let t := [Ev.openPart true true 0o644, .write [1, 2] 0, .flush, .fsync, .close, .noop, .truncDest, .renamePartDest]
+    SafeTrace t = false ∧ fs0.readDest = none ∧
+      (exec fs0 (t.take 7)).map FS.destAfterProcCrash = some (some []) := by decide
 
 end C04
